@@ -318,6 +318,22 @@ Theorem C09_delitem_reads_getitem : forall (st : tstate) (k : key),
 Proof. exact delitem_spec. Qed.
 Print Assumptions C09_delitem_reads_getitem.
 
+(* ---- clone queries (read the same index) ------------------------------------ *)
+Theorem C09_is_clone : forall (st : tstate) (n : rt),
+  state_wf st -> In n (pre_f (t_forest st)) ->
+  node_is_clone st n = Ok (Nat.ltb 1 (length (all_by_did (t_forest st) (rdid n)))).
+Proof. exact node_is_clone_spec. Qed.
+Print Assumptions C09_is_clone.
+
+Theorem C09_get_clones : forall (st : tstate) (n : rt) (add_self : bool),
+  state_wf st -> In n (pre_f (t_forest st)) ->
+  exists r, node_get_clones st n add_self = Ok r /\
+    Permutation r (if add_self then all_by_did (t_forest st) (rdid n)
+                   else filter (fun x => negb (Nat.eqb x (rid n))) (all_by_did (t_forest st) (rdid n))) /\
+    NoDup r /\ (add_self = false -> ~ In (rid n) r) /\ (add_self = true -> In (rid n) r).
+Proof. exact node_get_clones_spec. Qed.
+Print Assumptions C09_get_clones.
+
 (* ---- non-vacuity ---------------------------------------------------------- *)
 (* a forest with a clone group whose index order is NOT the pre-order (node 4
    was inserted before node 2), explicit ids colliding across the three
@@ -343,7 +359,9 @@ Example C09_nonvacuous :
   getitem st (KStr a (DInt 10)) = Ok 1 /\
   getitem st (KObj (DInt 99)) = Err EKey /\
   contains st (KStr b (DInt 20)) = Ok true /\
-  delitem st (KInt 77 (DInt 77)) = Ok [4; 5].
+  delitem st (KInt 77 (DInt 77)) = Ok [4; 5] /\
+  node_is_clone st (T 2 (i 1%Z b (DInt 20)) []) = Ok true /\
+  node_get_clones st (T 2 (i 1%Z b (DInt 20)) []) false = Ok [4].
 Proof.
   cbv zeta. split.
   - apply state_wf_b_sound. vm_compute. reflexivity.
